@@ -387,6 +387,8 @@ class NumInterp(Interp):
             raise Unsupported(f'{n.value.id}.{n.attr} not in the whitelist')
         if isinstance(n, (ast.ListComp, ast.GeneratorExp)):
             return self._comp(n, 0, [])
+        if isinstance(n, ast.SetComp):
+            return set(self._comp(ast.ListComp(elt=n.elt, generators=n.generators), 0, []))
         if isinstance(n, ast.JoinedStr):
             parts = []
             for v in n.values:
